@@ -228,6 +228,20 @@ def _hint_for(G, cat, name: str, sname: str, subscripted: bool):
     return G.subscripted(name, C('I'))
 
 
+def cause_finder_table(ctx, F) -> dict:
+    """The sign → cause-finder table of the explanation path, found by role (whatever it is called): the one
+    module-level dictionary of beartype._check.error._errmap that folds to ≥ 20 entries with functions as values."""
+    from sa.fold import FuncVal
+    ctx.repo.mod('beartype._check.error._errmap')
+    env = F.module_env('beartype._check.error._errmap')
+    cands = {n: v for n, v in env.items() if isinstance(v, dict) and len(v) >= 20
+             and all(isinstance(x, FuncVal) for x in v.values())}
+    if len(cands) != 1:
+        raise AnalysisError(f'anchor vanished: the sign → cause-finder table of beartype._check.error._errmap '
+                            f'(candidates: {sorted(cands)})')
+    return next(iter(cands.values()))
+
+
 def dispatch(ctx) -> list[dict]:
     """For every sign × {unsubscripted, subscripted}: what the generator does and which
     cause finder the explanation path selects."""
@@ -240,9 +254,7 @@ def dispatch(ctx) -> list[dict]:
     G, V, cat, GC = engines(ctx)
     F = G.f
     # the explanation side
-    errmap = F.const('beartype._check.error._errmap', 'HINT_SIGN_TO_GET_CAUSE_FUNC')
-    if not isinstance(errmap, dict) or len(errmap) < 20:
-        raise AnalysisError('HINT_SIGN_TO_GET_CAUSE_FUNC did not fold to a dictionary')
+    errmap = cause_finder_table(ctx, F)
     HTE = F.const('beartype._check.cls.hint.tree.hinttreeerror', 'HintTreeError')
     find_cause = HTE.find('find_cause')
     if not isinstance(find_cause, FuncVal):
